@@ -69,3 +69,114 @@ Example orderedb_examples :
   (* unused slots that disagree, or point in front of a live block (F3b): not ordered *)
   orderedb (mkS 2 [mkE 5 1 640 1 0 0 0 []; mkE 0 0 0 0 0 0 0 []] [mkE 5 1 640 1 0 0 0 []; mkE 0 0 0 0 0 0 0 []] [7]) = false.
 Proof. vm_compute. repeat split; reflexivity. Qed.
+
+(* ---------- completeness: every ordered state passes ---------- *)
+Lemma bytes_at_mid (pre mid post : list Z) :
+  bytes_at (pre ++ mid ++ post) (zlength pre) (zlength mid) = mid.
+Proof.
+  unfold bytes_at. rewrite !zlength_correct, !Nat2Z.id. rewrite skipn_len_app. apply firstn_len_app.
+Qed.
+
+Lemma bytes_at_rest (pre post : list Z) :
+  bytes_at (pre ++ post) (zlength pre) (zlength (pre ++ post) - zlength pre) = post.
+Proof.
+  unfold bytes_at. rewrite zlength_app. replace (zlength pre + zlength post - zlength pre) with (zlength post) by lia.
+  rewrite !zlength_correct, !Nat2Z.id. rewrite skipn_len_app. apply firstn_all.
+Qed.
+
+Lemma lb_of_live_entry off b : lb_of_entry (live_entry off b) (l_payload b) = b.
+Proof. destruct b. reflexivity. Qed.
+
+Lemma slot_of_free_entry off f : slot_of_entry (free_entry off f) = f.
+Proof. destruct f. reflexivity. Qed.
+
+Lemma read_live_glay n l : gtypes_ok l -> forall pre post frees,
+  (match frees with e :: _ => is_live e = false | [] => True end) ->
+  read_live n (pre ++ flat_map gbytes l ++ post) (base n + zlength pre) (glay (base n + zlength pre) l ++ frees)
+  = (l, base n + zlength pre + gtotal l, frees).
+Proof.
+  induction 1 as [|g l Hg Hl IH]; intros pre post frees Hf; cbn [glay flat_map app gtotal read_live].
+  - destruct frees as [|e r]; cbn [read_live]; [now rewrite Z.add_0_r|]. rewrite Hf. now rewrite Z.add_0_r.
+  - assert (Hlive : is_live (live_entry (base n + zlength pre + zlength (g_pad g)) (g_blk g)) = true).
+    { unfold is_live, is_unused. cbn [e_type live_entry]. apply Z.eqb_neq in Hg. now rewrite Hg. }
+    rewrite Hlive. cbn [e_off e_size live_entry].
+    (* the padding and the payload read back from the data *)
+    assert (Epad : bytes_at (pre ++ gbytes g ++ flat_map gbytes l ++ post) (base n + zlength pre - base n)
+                            (base n + zlength pre + zlength (g_pad g) - (base n + zlength pre)) = g_pad g).
+    { replace (base n + zlength pre - base n) with (zlength pre) by lia.
+      replace (base n + zlength pre + zlength (g_pad g) - (base n + zlength pre)) with (zlength (g_pad g)) by lia.
+      unfold gbytes at 1. rewrite <- !app_assoc. apply bytes_at_mid. }
+    assert (Epay : bytes_at (pre ++ gbytes g ++ flat_map gbytes l ++ post) (base n + zlength pre + zlength (g_pad g) - base n)
+                            (psize (g_blk g)) = l_payload (g_blk g)).
+    { replace (base n + zlength pre + zlength (g_pad g) - base n) with (zlength (pre ++ g_pad g)) by (rewrite zlength_app; lia).
+      unfold gbytes at 1, psize. rewrite <- !app_assoc. rewrite (app_assoc pre (g_pad g)). apply bytes_at_mid. }
+    replace (pre ++ (gbytes g ++ flat_map gbytes l) ++ post) with (pre ++ gbytes g ++ flat_map gbytes l ++ post)
+      by now rewrite <- !app_assoc.
+    rewrite Epad, Epay, lb_of_live_entry.
+    replace (base n + zlength pre + zlength (g_pad g) + psize (g_blk g)) with (base n + zlength (pre ++ gbytes g))
+      by (rewrite zlength_app, gbytes_length; unfold gspan; lia).
+    replace (base n + zlength pre + gspan g) with (base n + zlength (pre ++ gbytes g))
+      by (rewrite zlength_app, gbytes_length; lia).
+    replace (pre ++ gbytes g ++ flat_map gbytes l ++ post) with ((pre ++ gbytes g) ++ flat_map gbytes l ++ post)
+      by now rewrite <- !app_assoc.
+    rewrite (IH (pre ++ gbytes g) post frees Hf).
+    assert (Eg : mkG (g_pad g) (g_blk g) = g) by (destruct g; reflexivity). rewrite Eg.
+    f_equal. f_equal. rewrite zlength_app, gbytes_length. lia.
+Qed.
+
+Lemma gfile_of_gconc a : g_inv a -> gfile_of (gconc a) = a.
+Proof.
+  intros [[Ht [Hn Hg]] _]. unfold gfile_of. cbn [s_n tab data gconc].
+  unfold gtable, gdata.
+  pose proof (read_live_glay (gf_n a) (gf_live a) Ht [] (gf_gap a ++ gf_tail a) (map (free_entry (g_end a)) (gf_free a))) as H.
+  cbn [app] in H. change (zlength (@nil Z)) with 0 in H. rewrite Z.add_0_r in H.
+  rewrite H by (destruct (gf_free a); [exact I|reflexivity]). clear H.
+  destruct a as [n live gap tail free]. cbn [gf_n gf_live gf_gap gf_tail gf_free] in *.
+  destruct free as [|f fr]; cbn [map].
+  - rewrite (Hg eq_refl). cbn [app]. f_equal.
+    replace (base n + gtotal live - base n) with (zlength (flat_map gbytes live)) by (rewrite gdata_length; lia).
+    apply bytes_at_rest.
+  - cbn [e_off free_entry]. unfold g_end. cbn [gf_n gf_live gf_gap].
+    f_equal.
+    + replace (base n + gtotal live - base n) with (zlength (flat_map gbytes live)) by (rewrite gdata_length; lia).
+      replace (base n + gtotal live + zlength gap - (base n + gtotal live)) with (zlength gap) by lia.
+      apply bytes_at_mid.
+    + replace (base n + gtotal live + zlength gap - base n) with (zlength (flat_map gbytes live ++ gap))
+        by (rewrite zlength_app, gdata_length; lia).
+      rewrite (app_assoc (flat_map gbytes live) gap tail). apply bytes_at_rest.
+    + rewrite slot_of_free_entry. f_equal. rewrite map_map. rewrite <- (map_id fr) at 2. apply map_ext. intros x. apply slot_of_free_entry.
+Qed.
+
+Lemma zlist_eqb_refl l : zlist_eqb l l = true.
+Proof. induction l as [|x l IH]; cbn [zlist_eqb]; [reflexivity|]. now rewrite Z.eqb_refl, IH. Qed.
+Lemma entry_eqb_refl e : entry_eqb e e = true.
+Proof. unfold entry_eqb. now rewrite !Z.eqb_refl, zlist_eqb_refl. Qed.
+Lemma table_eqb_refl l : table_eqb l l = true.
+Proof. induction l as [|x l IH]; cbn [table_eqb]; [reflexivity|]. now rewrite entry_eqb_refl, IH. Qed.
+Lemma state_eqb_refl s : state_eqb s s = true.
+Proof. unfold state_eqb. now rewrite Z.eqb_refl, !table_eqb_refl, zlist_eqb_refl. Qed.
+
+Lemma nodup_nodupb l : NoDup l -> nodupb l = true.
+Proof.
+  induction 1 as [|x l Hx Hl IH]; cbn [nodupb]; [reflexivity|]. rewrite IH, andb_true_r. apply negb_true_iff.
+  destruct (existsb (Z.eqb x) l) eqn:E; [|reflexivity]. apply existsb_exists in E. destruct E as [y [Hy Ey]].
+  apply Z.eqb_eq in Ey. subst y. contradiction.
+Qed.
+
+Lemma g_inv_invb a : g_inv a -> g_invb a = true.
+Proof.
+  intros [[Ht [Hn Hg]] Hnd]. unfold g_invb. rewrite (nodup_nodupb _ Hnd), andb_true_r.
+  apply andb_true_intro. split; [apply andb_true_intro; split|].
+  - apply forallb_forall. intros g Hin. rewrite Forall_forall in Ht. apply negb_true_iff. apply Z.eqb_neq. now apply Ht.
+  - now apply Z.eqb_eq.
+  - destruct (gf_free a); [now rewrite (Hg eq_refl)|reflexivity].
+Qed.
+
+(* orderedb decides [ordered] *)
+Theorem orderedb_complete s : ordered s -> orderedb s = true.
+Proof.
+  intros [a [Hi ->]]. unfold orderedb. rewrite (gfile_of_gconc a Hi). rewrite (g_inv_invb a Hi). apply state_eqb_refl.
+Qed.
+
+Theorem orderedb_iff s : orderedb s = true <-> ordered s.
+Proof. split; [apply orderedb_sound|apply orderedb_complete]. Qed.
